@@ -786,6 +786,55 @@ theorem mul_comm_frame_scalar (how : How) (m : Option Dir) (ch : ColHow) (a : RF
   intro c _
   congr 2; funext t; exact appO_comm_mul _ _
 
+/-! ### commutativity with ONE-column frames (review s4: `one_col_*` and the commutativity theorems were never composed) -/
+
+theorem one_col_name_comm (n n' : String) : (if n = n' then n else "0") = (if n' = n then n' else "0") := by
+  by_cases e : n = n'
+  · subst e; simp
+  · have e' : ¬ n' = n := fun h => e h.symm
+    simp [e, e']
+
+/-- two one-column frames (any names): `add_` commutes, result name included (the common name, else `0`) -/
+theorem add_comm_one_col (how : How) (hh : how = .inner ∨ how = .outer) (m : Option Dir) (ch : ColHow) (idx idx' : List Int)
+    (n n' : String) (col col' : RCol) (h : col.length = idx.length) (h' : col'.length = idx'.length)
+    (sa : SortedL idx) (sb : SortedL idx') :
+    binopF .add how m ch (.df { idx := idx, cols := [(n, col)] }) (.df { idx := idx', cols := [(n', col')] }) =
+      binopF .add how m ch (.df { idx := idx', cols := [(n', col')] }) (.df { idx := idx, cols := [(n, col)] }) := by
+  rw [one_col_one_col .add how m ch idx idx' n n' col col' h h', one_col_one_col .add how m ch idx' idx n' n col' col h' h,
+    one_col_name_comm n n']
+  rcases hh with rfl | rfl
+  · rw [add_comm_inner m { idx := idx, vals := col } { idx := idx', vals := col' } sa sb]
+  · rw [add_comm_outer m { idx := idx, vals := col } { idx := idx', vals := col' } sa sb]
+
+theorem mul_comm_one_col (how : How) (hh : how = .inner ∨ how = .outer) (m : Option Dir) (ch : ColHow) (idx idx' : List Int)
+    (n n' : String) (col col' : RCol) (h : col.length = idx.length) (h' : col'.length = idx'.length)
+    (sa : SortedL idx) (sb : SortedL idx') :
+    binopF .mul how m ch (.df { idx := idx, cols := [(n, col)] }) (.df { idx := idx', cols := [(n', col')] }) =
+      binopF .mul how m ch (.df { idx := idx', cols := [(n', col')] }) (.df { idx := idx, cols := [(n, col)] }) := by
+  rw [one_col_one_col .mul how m ch idx idx' n n' col col' h h', one_col_one_col .mul how m ch idx' idx n' n col' col h' h,
+    one_col_name_comm n n']
+  rcases hh with rfl | rfl
+  · rw [mul_comm_inner m { idx := idx, vals := col } { idx := idx', vals := col' } sa sb]
+  · rw [mul_comm_outer m { idx := idx, vals := col } { idx := idx', vals := col' } sa sb]
+
+/-- a one-column frame against a frame with several columns: `add_` / `mul_` commute (the one-column frame is the Series of
+its column on either side, `one_col_left` / `one_col_right`) -/
+theorem add_comm_one_col_frame (how : How) (hh : how = .inner ∨ how = .outer) (m : Option Dir) (ch : ColHow) (idx : List Int)
+    (n : String) (col : RCol) (b : RFrame) (hb : b.cols.length > 1) (h : col.length = idx.length)
+    (sa : SortedL idx) (sb : SortedL b.idx) :
+    binopF .add how m ch (.df { idx := idx, cols := [(n, col)] }) (.df b) =
+      binopF .add how m ch (.df b) (.df { idx := idx, cols := [(n, col)] }) := by
+  rw [one_col_left .add how m ch idx n col b hb h, one_col_right .add how m ch idx n col b hb h,
+    add_comm_frame_series how hh m ch b { idx := idx, vals := col } hb sb sa]
+
+theorem mul_comm_one_col_frame (how : How) (hh : how = .inner ∨ how = .outer) (m : Option Dir) (ch : ColHow) (idx : List Int)
+    (n : String) (col : RCol) (b : RFrame) (hb : b.cols.length > 1) (h : col.length = idx.length)
+    (sa : SortedL idx) (sb : SortedL b.idx) :
+    binopF .mul how m ch (.df { idx := idx, cols := [(n, col)] }) (.df b) =
+      binopF .mul how m ch (.df b) (.df { idx := idx, cols := [(n, col)] }) := by
+  rw [one_col_left .mul how m ch idx n col b hb h, one_col_right .mul how m ch idx n col b hb h,
+    mul_comm_frame_series how hh m ch b { idx := idx, vals := col } hb sb sa]
+
 /-! ### lists of frames reduce left to right -/
 
 theorem reduce_left_frames (op : Op) (hop : op = .add ∨ op = .mul) (how : How) (m : Option Dir) (ch : ColHow)
